@@ -11,6 +11,9 @@
 #include <string>
 #include <vector>
 #include "nunavut/support/serialization.hpp"
+#ifdef C14_EXPECT_SIZE_T   // 32-bit compile-only build of tools/checks/c14.py
+static_assert(sizeof(std::size_t) == C14_EXPECT_SIZE_T, "unexpected size_t width");
+#endif
 
 using nunavut::support::bitspan;
 using nunavut::support::const_bitspan;
@@ -169,6 +172,7 @@ int main()
             const bool v = const_bitspan(b.p, num(tok[2]), num(tok[3])).getBit();
             if (!b.guards_ok()) std::puts("GUARD"); else std::puts(v ? "1" : "0");
         }
+#ifndef C14_OMIT_FLOAT   // rendering with --omit-float-serialization-support has none of these
         else if ((c == "sf16" || c == "sf32" || c == "sf64") && nt == 5)
         {
             Buf b(tok[1]);
@@ -210,6 +214,7 @@ int main()
             }
             std::printf("%" PRIu64 "\n", h);
         }
+#endif
         else if (c == "xz" && nt == 5)
         {
             Buf b(tok[1]);
